@@ -550,7 +550,11 @@ func (s *UtxoStore) deleteUnminedInputs(tx mwdb.DBTransaction, rec *TxRecord) er
 	for _, input := range rec.MsgTx.TxIn {
 		prevOut := &input.PreviousOutPoint
 		k := canonicalOutPoint(&prevOut.Hash, prevOut.Index)
-		if len(existsRawUnminedInput(nsUnminedInputs, k)) > 0 {
+		v, err := nsUnminedInputs.Get(k)
+		if err != nil {
+			return err
+		}
+		if len(v) > 0 {
 			if err := deleteRawUnminedInput(nsUnminedInputs, k); err != nil {
 				return err
 			}
